@@ -978,6 +978,35 @@ def wrappers(rec, case, rng, pp, cls):
     # a copy of a structure that already holds a stored projection, edited afterwards (what create_subset_structure does): the copy's
     # projection must follow the copy's OWN metadata - pixel (r, c) of the copy with FirstRow + dr / FirstCol + dc is parent pixel (r + dr, c + dc)
     if not hasattr(s, 'ImageData'):       # SIDD structures carry no sub-image offsets
+        # the three SIDD structure classes (versions 1, 2, 3) each have their own define_coa_projection / project_* methods: the same
+        # measurement block read into each class must project alike, plain and with stored adjustable parameters of every frame
+        import logging as _lg
+        from sarpy.io.product.sidd1_elements.SIDD import SIDDType as _S1
+        from sarpy.io.product.sidd3_elements.SIDD import SIDDType as _S3
+        xml2 = s.to_xml_bytes()
+        for ver_, cls_, xml_ in ((1, _S1, xml2.replace(b'urn:SIDD:2.0.0', b'urn:SIDD:1.0.0')), (3, _S3, xml2.replace(b'urn:SIDD:2.0.0', b'urn:SIDD:3.0.0'))):
+            prev = _lg.root.manager.disable
+            _lg.disable(_lg.CRITICAL)
+            try:
+                sv = cls_.from_xml_string(xml_)
+            finally:
+                _lg.disable(prev)
+            if f'sidd{ver_}_elements' not in type(sv).__module__:
+                raise Infra(f'the SIDD version {ver_} structure class was not obtained (got {type(sv).__module__})')
+            rec.check(case, f'SIDD version {ver_} class: project_image_to_ground(PLANE) vs the version 2 class (m)',
+                      sv.project_image_to_ground(pix, projection_type='PLANE') - P, IDENT, k)
+            for frame_ in ('ECF', 'RIC_ECF', 'RIC_ECI'):
+                adj_v = dict(adj, adj_params_frame=frame_)
+                want_v = pp.image_to_ground_plane(pix, s, use_structure_coa=False, **adj_v)
+                sv2 = sv.copy()
+                sv2.define_coa_projection(**adj_v)
+                rec.check(case, f'SIDD version {ver_} class: define_coa_projection({frame_}) + project_image_to_ground vs the module function with the same parameters (m)',
+                          sv2.project_image_to_ground(pix, projection_type='PLANE') - want_v, IDENT, k, {'adj': adj_v, 'sidd_version': ver_})
+                im_v = sv2.project_ground_to_image(want_v, tolerance=1e-6, max_iterations=25)[0]
+                rec.check(case, f'SIDD version {ver_} class: stored {frame_} parameters, project_ground_to_image of those points (pixel)', im_v - pix, ALARM_PIX, k,
+                          {'adj': adj_v, 'sidd_version': ver_}, log=1e-5)
+            rec.evals += 7 * N
+            rec.classes.add(('sidd-version-class', ver_))
         rec.evals += 10 * N
         rec.classes.add(cls + ('wrappers',))
         return
